@@ -599,6 +599,12 @@ def arbitrary_unit(args):
                     cut = rng.randint(0, len(a))
                     items.append(("text", "\n".join(a[:cut] + b[rng.randint(0, len(b)) :])))
                     kinds.append("spliced-drawings")
+        elif part[0] == "file":
+            with open(part[1], encoding="utf-8") as fh:
+                texts = json.load(fh)
+            items = [("text", x) for x in texts]
+            kinds = ["libfuzzer"] * len(texts)
+            acc.bump("libfuzzer_texts", len(texts))
         else:
             k = part[1]
             frng = rng_for(0, "c19-exhaustive-positions", k)
@@ -665,6 +671,10 @@ def run(rep, tier, seed):
         units.append((arbitrary_unit, (seed, tier, workroot, asan_ok and k % 4 == 0, ("positions", k))))
     for k in range(cfg["random_texts"] // RANDOM_TEXTS_PER_PART):
         units.append((arbitrary_unit, (seed, tier, workroot, asan_ok and k % 10 == 0, ("random", k))))
+    if tier == "thorough":
+        path = _libfuzzer_texts(rep, seed, workroot)
+        if path:
+            units.append((arbitrary_unit, (seed, tier, workroot, asan_ok, ("file", path))))
     ctx = multiprocessing.get_context("fork")
     with ctx.Pool(processes=runner.NCPU) as pool:
         handles = [pool.apply_async(f, (a,)) for f, a in units]
@@ -739,6 +749,38 @@ def run(rep, tier, seed):
         rep.inconclusive_reason("too many undecided evaluation comparisons (%d)" % rep.undecided)
     if not rep.inconclusive:
         shutil.rmtree(workroot, ignore_errors=True)
+
+
+def _libfuzzer_texts(rep, seed, workroot):
+    """coverage-guided generation (libFuzzer on the ASan build of harness/fuzz, target fuzz_table) seeded with the shipped and
+    with generated drawings: crash artifacts and the final corpus become one more family of arbitrary texts for the no-panic
+    clause; the verdict on each is the driver's (dbg, rel, asan)"""
+    import fuzzing
+
+    rng = rng_for(seed, "c19-libfuzzer")
+    seeds = [text.encode("utf-8") for _, text in shipped_examples()]
+    for k in range(200):
+        t = gdraw.random_table(rng, shape={"n": rng.randint(1, 3), "ni": rng.randint(1, 3)})
+        seeds.append(gdraw.draw(t, rng.choice(["row", "col"]), rng)[0].encode("utf-8"))
+    try:
+        crashes, stats = fuzzing.run("fuzz_table", seeds, fuzzing.SECONDS, rep.workdir, max_len=6000, seed=seed, dictionary=list(gdraw.BOX_CHARS) + ["\n", " U ", " C+ ", " P ", ">=", "<", "[1..2]", "-"], keep_corpus=20000)
+    except runner.Inconclusive as ex:
+        print("NOTE property=C19 libFuzzer slot skipped: %s" % str(ex)[:300])
+        rep.extra["libfuzzer"] = "unavailable: " + str(ex)[:300]
+        return None
+    texts = []
+    for blob in crashes + stats.pop("corpus"):
+        try:
+            texts.append(blob.decode("utf-8"))
+        except UnicodeDecodeError:
+            pass
+    texts = sorted(set(texts))
+    path = os.path.join(workroot, "libfuzzer_texts.json")
+    with open(path, "w", encoding="utf-8") as fh:
+        json.dump(texts, fh)
+    stats["texts_replayed_in_driver"] = len(texts)
+    rep.extra["libfuzzer"] = stats
+    return path
 
 
 def replay(rp):
